@@ -34,7 +34,10 @@ META = {
                   '(thorough), TLC-simulated 4-6 call histories with sampled rows; random apps up to 12 routes / 6 sinks / 3 '
                   'static routes with assembly interleaved with requests.  Route templates have literal and single-field '
                   'segments only (converters / multi-field segments belong to C01); sink prefixes are built from literal text, '
-                  'named and unnamed \\d+ / [^/]+ groups, unnamed alternations and trailing optional unnamed groups.  What a picked static route does with the rest of the path is '
+                  'named and unnamed \\d+ / [^/]+ groups, unnamed alternations, trailing optional unnamed groups and named groups '
+                  'inside optional (non-)capturing groups (key set of the kwargs = all named groups: P; the None of a group that '
+                  'took no part: D); static prefixes in both spellings (/a, /a/); every 3-call re-registration history of '
+                  'sinks / static routes is replayed.  What a picked static route does with the rest of the path is '
                   'modelled only as far as needed to recognise it (C16 owns it); OPTIONS answered by a static route is not '
                   'distinguishable from other 200 + Allow: GET answers.  Trusted: TLC, engine/drivers.py, CPython re/os.',
 }
